@@ -425,10 +425,77 @@ func ruleElementwise(c *core.Ctx, conv *ssa.Function) {
 			}
 			if core.Guarded(st, call.(ssa.Instruction), core.Eq(isName, isName)) {
 				bad = ""
+			} else if nameIndexed(st, call.(ssa.Instruction), fb, isLower) {
+				bad = "" // source index looked up by folded name in an index built from the source's field names
 			} else {
 				bad = "a destination field is filled from a source field without their names having been compared"
 			}
 		}
 		c.Check(bad == "", rule, "type/conversion.convertStruct", st.Pos(), "Field(i) <- Field(j) only when the (case-folded) names are equal", bad)
 	}
+}
+
+// nameIndexed: the source field index of fb = src.Field(j) is the value of a
+// successful lookup, by case-folded name, in a map whose every entry maps the
+// folded name of field k of a struct type to k (built in fn or by a helper).
+func nameIndexed(fn *ssa.Function, at ssa.Instruction, fb *ssa.Call, isLower func(ssa.Value) bool) bool {
+	e, ok := core.StripConv(core.Canon(fb.Call.Args[1])).(*ssa.Extract)
+	if !ok || e.Index != 0 {
+		return false
+	}
+	lk, ok := e.Tuple.(*ssa.Lookup)
+	if !ok || !lk.CommaOk || !isLower(lk.Index) {
+		return false
+	}
+	if !core.Guarded(fn, at, core.IsTrue(okOf(lk))) {
+		return false
+	}
+	m := core.Canon(lk.X)
+	builder := fn
+	if cl, ok := m.(*ssa.Call); ok {
+		h := cl.Call.StaticCallee()
+		if h == nil || !inRepo(h) || len(h.Blocks) == 0 {
+			return false
+		}
+		builder = h
+		m = nil
+		for _, r := range core.Returns(h) {
+			if len(r.Results) == 1 {
+				m = core.Canon(core.RetVal(r, 0))
+			}
+		}
+	}
+	if _, isMake := m.(*ssa.MakeMap); !isMake {
+		return false
+	}
+	n := 0
+	for _, b := range builder.Blocks {
+		for _, in := range b.Instrs {
+			mu, ok := in.(*ssa.MapUpdate)
+			if !ok || core.Canon(mu.Map) != m {
+				continue
+			}
+			n++
+			key, ok := core.Canon(mu.Key).(*ssa.Call)
+			if !ok || !isLower(key) || len(key.Call.Args) != 1 {
+				return false
+			}
+			// the folded string is the Name of Field(k) where k is the value stored
+			p := core.AccessPath(key.Call.Args[0])
+			if len(p.Fields) == 0 || p.Fields[len(p.Fields)-1].Name() != "Name" {
+				return false
+			}
+			fc, _ := core.CallResult(core.RootOf(key.Call.Args[0]))
+			if fc == nil || len(fc.Call.Args) == 0 {
+				return false
+			}
+			if name := core.CalleeName(fc); !strings.HasSuffix(name, "Field") {
+				return false
+			}
+			if !core.SameValue(fc.Call.Args[len(fc.Call.Args)-1], mu.Value) {
+				return false
+			}
+		}
+	}
+	return n > 0
 }
